@@ -166,8 +166,24 @@ const (
 	oTRUNC  = 0x200
 )
 
+// hasNUL: the kernel refuses a path with an embedded NUL byte.
+func (ex *Exec) hasNUL(name Str) bool {
+	for _, b := range flatBytes(name) {
+		if ex.isByte(b, 0) {
+			return true
+		}
+	}
+	return false
+}
+
 func (ex *Exec) openFileModel(name Str, flag int) Value {
 	fs := ex.fs()
+	if name.HasOpaque() {
+		ex.unsupported("file path with opaque content")
+	}
+	if ex.hasNUL(name) {
+		return Tuple{Ptr{}, ex.pathError("open", name, "ErrInvalid")}
+	}
 	if ex.isDir(name) {
 		if flag&(oWRONLY|oRDWR) != 0 {
 			return Tuple{Ptr{}, ex.pathError("open", name, "ErrInvalid")}
